@@ -193,6 +193,21 @@ def extract_all(repo):
         return d
     attempt(defaults, settings_defaults)
 
+    def watchdog_order():
+        # the deadline thread of connect_tcp: its receiver must be dropped BEFORE the socket is shut down
+        # (a reader woken by the shutdown must find the channel closed) — the order of the two statements
+        st = src("src/streams.rs")
+        body = fn_body(st, "connect_tcp")
+        m = need(re.search(r"let\s*\(\s*(\w+)\s*,\s*(\w+)\s*\)\s*=\s*(?:[a-z_]+::)*channel\s*(?:::<[^>]*>)?\(\)", body), "watchdog channel in connect_tcp")
+        rx = m.group(2)
+        after = body[m.end():]
+        w = need(re.search(r"recv_timeout\(", after), "watchdog recv_timeout in connect_tcp")
+        tail = after[w.end():]
+        sh = need(re.search(r"\.shutdown\(", tail), "socket shutdown in the watchdog thread")
+        dr = re.search(r"\bdrop\(\s*%s\s*\)" % re.escape(rx), tail)
+        return {"wdDropsRxBeforeShutdown": bool(dr and dr.start() < sh.start())}
+    attempt(["wdDropsRxBeforeShutdown"], watchdog_order)
+
     def boundary_len():
         mp = src("src/multipart_crate/mod.rs")
         k = file_consts(mp)
@@ -220,7 +235,7 @@ def render(c):
     lines.append("def redirectStatuses : List Nat := [%s]" % ", ".join(str(x) for x in c["redirectStatuses"]))
     for k in ["defaultMaxHeaders", "defaultMaxRedirections", "defaultConnectTimeoutMs", "defaultReadTimeoutMs", "boundaryLen"]:
         lines.append("def %s : Nat := %d" % (k, c[k]))
-    for k in ["defaultFollowRedirects", "defaultTimeoutNone", "defaultAcceptInvalidCerts", "defaultAcceptInvalidHostnames", "defaultAllowCompression"]:
+    for k in ["defaultFollowRedirects", "defaultTimeoutNone", "defaultAcceptInvalidCerts", "defaultAcceptInvalidHostnames", "defaultAllowCompression", "wdDropsRxBeforeShutdown"]:
         lines.append("def %s : Bool := %s" % (k, "true" if c[k] else "false"))
     lines.append("end Atto.Consts")
     return "\n".join(lines) + "\n"
@@ -257,7 +272,7 @@ def main():
             full[k] = prev[k]
     if any(k not in full for k in LEAN_NAMES + ["redirectStatuses", "defaultMaxHeaders", "defaultMaxRedirections",
             "defaultConnectTimeoutMs", "defaultReadTimeoutMs", "boundaryLen", "defaultFollowRedirects", "defaultTimeoutNone",
-            "defaultAcceptInvalidCerts", "defaultAcceptInvalidHostnames", "defaultAllowCompression"]):
+            "defaultAcceptInvalidCerts", "defaultAcceptInvalidHostnames", "defaultAllowCompression", "wdDropsRxBeforeShutdown"]):
         print("extract_consts: no previous value to fall back on", file=sys.stderr)
         sys.exit(2)
     if not missing:
